@@ -41,6 +41,11 @@ Lemma combine_seq_nth {A B} (g : nat -> B) (l : list A) (d : A) :
   combine (map g (seq 0 (length l))) l = map (fun n => (g n, nth n l d)) (seq 0 (length l)).
 Proof. rewrite (combine_seq_nth_off g d l 0). apply map_ext. intros n. now rewrite Nat.sub_0_r. Qed.
 
+Lemma zset_lit0 {A} (l : list A) v : 1 <= length l -> zset l 0%Z v = GOk (upd l 0 v).
+Proof. intros H. exact (zset_nat l 0 v H). Qed.
+Lemma zset_m1 {A} (l : list A) v : 1 <= length l -> zset l (-1)%Z v = GOk (upd l (length l - 1) v).
+Proof. intros H. change (-1)%Z with (- Z.of_nat 1)%Z. unfold zset. rewrite zidx_neg by lia. now rewrite list_upd_eq. Qed.
+
 Section Tie.
 Context {T : Type} (K : ops T) (AL : approx_laws K).
 Notation "0" := (o0 K).
@@ -106,7 +111,8 @@ Proof.
 Qed.
 
 (* ---- R (Eq. 9.67): row j - 1 accumulates, coordinate by coordinate, the rows of Rk scaled by N_j(u_k) ---- *)
-Lemma loop_R (p c dim : nat) (kv uk : list T) (rk : list (list T)) :
+Lemma loop_R (p c dim : nat) (kv uk : list T) (rk Minit : list (list T)) :
+  Minit = repeat (repeat 0 dim) (c - 2) ->
   c + p + 1 <= length kv -> length rk + 1 <= length uk -> (forall row, In row rk -> length row = dim) -> 2 <= c ->
   gfor (zrange 1 (Z.of_nat c - 1) 1) (fun i vector_r =>
     do ru_tmp <- gfor (combine (zrange 0 (zlen rk) 1) rk) (fun '(idx, pt) ru_tmp =>
@@ -124,13 +130,12 @@ Lemma loop_R (p c dim : nat) (kv uk : list T) (rk : list (list T)) :
         do vector_r <- zset vector_r (i - 1)%Z v_26 ;;
         GOk vector_r) vector_r ;;
       GOk vector_r) vector_r ;;
-    GOk vector_r) (map (fun _ => map (fun _ => 0) (zrange 0 (Z.of_nat dim) 1)) (zrange 0 (Z.of_nat c - 2) 1))
+    GOk vector_r) Minit
   = GOk (approx_R K p c dim kv uk rk).
 Proof.
-  intros Hkv Huk Hrk Hc. unfold approx_R. set (L := length rk).
+  intros -> Hkv Huk Hrk Hc. unfold approx_R. set (L := length rk).
   replace (Z.of_nat c - 1)%Z with (Z.of_nat (c - 1)) by lia. rewrite zrange_1. replace (c - 1 - 1) with (c - 2) by lia.
-  replace (Z.of_nat c - 2)%Z with (Z.of_nat (c - 2)) by lia.
-  rewrite !map_const_zrange, !Nat2Z.id. rewrite <- seq_shift, !map_map, (gfor_map (fun x => Z.of_nat (S x))).
+  rewrite <- seq_shift, !map_map, (gfor_map (fun x => Z.of_nat (S x))).
   set (M0 := repeat (repeat 0 dim) (c - 2)).
   set (B := fun (j n : nat) => bf1 p kv j (nth (S n) uk 0)).
   rewrite (gfor_fill [] _ (fun k => map (fun d => sumr K 0 L (fun n => omul K (get2 K rk n d) (B (S k) n))) (seq 0 dim)) M0 (c - 2)).
@@ -374,7 +379,7 @@ Proof.
   assert (Em : znth pts (-1)%Z = GOk (nth (Nat.pred r) pts [])).
   { rewrite (znth_last pts []) by exact Hne. rewrite last_nth. fold r. now replace (r - 1) with (Nat.pred r) by lia. }
   assert (Ld0 : length (nth 0 pts []) = d) by (apply Hd; apply nth_In; fold r; lia).
-  rewrite E0. cbn [gbind]. unfold zlen. fold r. rewrite Ld0.
+  rewrite E0. cbn [gbind]. change (zlen pts) with (Z.of_nat r). change (zlen (nth 0 pts [])) with (Z.of_nat (length (nth 0 pts []))). rewrite Ld0.
   rewrite (compute_params_curve_tie K LW pts dist dm Hdist Hne). fold (chords_of dm pts).
   destruct (Fit.compute_params_curve K (chords_of dm pts)) as [uk| |] eqn:Euk; cbn [res_to_gres gbind res_bind]; try reflexivity.
   assert (Luk : length uk = r).
@@ -383,8 +388,6 @@ Proof.
   set (kv := Fit.compute_knot_vector2 K p r c uk) in *.
   assert (Lkv : length kv = c + p + 1) by (unfold kv; now apply ckv2_length).
   (* N, N^T N, its LU factors *)
-  match goal with |- context [gfor (zrange 1 (Z.of_nat r - 1) 1) ?ff []] =>
-    match ff with context [matrix_n] => idtac | _ => idtac end end.
   rewrite (loop_N p c r kv uk) by lia. cbn [gbind].
   set (Nm := approx_N K p c kv uk r) in *.
   destruct (approxN_shape p c r kv uk) as [LN HN]. fold Nm in LN, HN.
@@ -401,25 +404,49 @@ Proof.
   (* the control point table with its two fixed end points *)
   replace (Z.of_nat c) with (Z.of_nat c) by reflexivity.
   rewrite !map_const_zrange, !Nat2Z.id. cbn [gbind].
-  rewrite zset_nat0, Em.
-  2:{ rewrite repeat_length. lia. }
-  cbn [gbind]. rewrite zset_last by (intros E; apply (f_equal (@length _)) in E; rewrite upd_length, repeat_length in E; simpl in E; lia).
-  rewrite upd_length, repeat_length. cbn [gbind]. rewrite E0, Em. cbn [gbind].
+  rewrite zset_lit0 by (rewrite repeat_length; lia). cbn [gbind]. rewrite ?Em. cbn [gbind].
+  rewrite zset_m1 by (rewrite upd_length, repeat_length; lia).
+  rewrite upd_length, repeat_length. cbn [gbind]. rewrite ?E0. cbn [gbind]. rewrite ?Em. cbn [gbind].
   (* Rk, R *)
   rewrite (loop_Rk p c r kv uk pts (nth 0 pts []) (nth (Nat.pred r) pts [])) by (auto; lia). cbn [gbind].
   set (rk := approx_Rk K p c kv uk pts) in *.
   destruct (approxRk_shape p c d kv uk pts Hd) as [Lrk Hrk]. fold rk in Lrk, Hrk. fold r in Lrk.
-  rewrite (loop_R p c d kv uk rk) by (auto; lia). cbn [gbind].
+  match goal with |- context [gfor (zrange 1 (Z.of_nat c - 1) 1) _ ?M0] =>
+    rewrite (loop_R p c d kv uk rk M0) by (first [f_equal; lia | auto; lia]) end.
+  cbn [gbind].
   set (vecR := approx_R K p c d kv uk rk) in *.
   destruct (approxR_shape p c d kv uk rk) as [LR HR]. fold vecR in LR, HR.
   (* the solution *)
   destruct (loop_cols c d Lm Um vecR (nth 0 pts []) (nth (Nat.pred r) pts [])) as (X & EX & Eloop); auto.
-  { apply (Hsolv uk Lm Um eq_refl). fold r kv Nm NtN. rewrite Elu, Edl. reflexivity. }
+  { apply (Hsolv uk Lm Um eq_refl). exact Elu. }
   replace (c - 1) with (c - 1) by reflexivity. rewrite Eloop. cbn [gbind].
   (* the model *)
-  unfold approx_1d. fold r. cbv zeta.
+  unfold approx_1d. cbv zeta. fold r. fold kv.
   replace (length (hd [] pts)) with d by (destruct pts; [congruence|simpl in *; symmetry; apply Hd; simpl; auto]).
-  fold Nm. rewrite Et. cbn [res_bind]. rewrite Emul. cbn [res_bind]. fold NtN. rewrite Elu. cbn [res_bind]. rewrite Edl. cbn [fst snd].
+  fold Nm. rewrite Et. cbn [res_bind]. rewrite Emul. cbn [res_bind]. fold NtN. rewrite Elu. cbn [res_bind fst snd].
   fold rk vecR. rewrite EX. reflexivity.
 Qed.
 End Tie.
+
+Require Import Reals Lra Qabs.
+Lemma Rops_approx_laws : approx_laws Rops.
+Proof. constructor; [apply Rops_nat_laws|]. intros x y. cbn [omul Rops]. apply Rmult_comm. Qed.
+Lemma Qops_approx_laws : approx_laws Qops.
+Proof.
+  constructor; [apply Qops_nat_laws|]. intros x y. cbn [omul Qops]. apply Qred_complete. apply Qmult_comm.
+Qed.
+
+Definition approximate_curve_tie_R := @approximate_curve_tie _ Rops Rops_approx_laws.
+Definition approximate_curve_tie_Q := @approximate_curve_tie _ Qops Qops_approx_laws.
+
+(* ---- example: 6 data points, degree 2, 4 control points, dm = |x1 - x0| (unit chords); the values geomdl returns when
+   linalg.point_distance is replaced by that function ---- *)
+Local Open Scope Q_scope.
+Definition exDmA (a b : list Q) : Q := Qabs (nth 0 a 0 - nth 0 b 0).
+Definition exAP : list (list Q) := [[0; 0]; [1; 1]; [2; 0]; [3; 2]; [4; 1]; [5; 3]].
+Example approximate_curve_ex :
+  FittingC.approximate_curve__centripetal_false Qops exAP 2 4 (fun a b => GOk (exDmA a b)) =
+    GOk (mk_curvedata2 2 [[0; 0]; [1; 1471 # 1740]; [7 # 2; 799 # 1160]; [5; 3]] [0; 0; 0; 2 # 5; 1; 1; 1])
+  /\ Fit.approximate_curve Qops exAP 2 4 (chords_of exDmA exAP) =
+    Ok ([[0; 0]; [1; 1471 # 1740]; [7 # 2; 799 # 1160]; [5; 3]], [0; 0; 0; 2 # 5; 1; 1; 1]).
+Proof. split; vm_compute; reflexivity. Qed.
